@@ -52,11 +52,13 @@ public:
         // Contexts being bound concurrently re-read their parent's state under this mutex when they detect
         // a propagation in progress (see bind_to_impl); hold it until the whole forest has been walked.
         context_state_propagation_mutex_type::scoped_lock propagation_lock(the_context_state_propagation_mutex);
+        __TBB_VERIF_POINT(vp_ctx_propagate_begin, &src, 0);
         // Advance global state propagation epoch
         ++the_context_state_propagation_epoch;
         // Propagate to all workers and external threads and sync up their local epochs with the global one
         // The whole propagation sequence is locked, thus no contention is expected
         for (auto& thr_data : my_threads_list) {
+            __TBB_VERIF_POINT(vp_ctx_propagate_list, &src, 0);
             thr_data.propagate_task_group_state(mptr_state, src, new_state);
         }
 
